@@ -295,6 +295,194 @@ def judge_undefined_macro(ctx, src, name):
     ctx.mark_nontrivial(dg(src))
 
 
+# ---------------------------------------------------------------- unencodable
+U8_OPS = [n for n in isa.NAMES if isa.KIND[n] == 'u8']
+LV1_OPS = [n for n in isa.NAMES if isa.KIND[n] == 'lv1' and n != 'OP_PUSH1']
+WRAPS = ('top', 'if', 'ifhoist', 'ifend', 'else', 'try', 'except', 'loop',
+         'def', 'defend')
+
+
+def _wrap(how, inner):
+    """the instruction inside a clause of each block construct"""
+    return {
+        'top': inner,
+        'if': f'true if {{ {inner} }}',
+        'ifhoist': f'if ( true ) {{ {inner} }}',
+        'ifend': f'true if {inner} end_if',
+        'else': f'true if {{ true }} else {{ {inner} }}',
+        'try': f'try {{ {inner} }} except {{ true }}',
+        'except': f'try {{ true }} except {{ {inner} }}',
+        'loop': f'true loop {{ {inner} }}',
+        'def': f'def 0 {{ {inner} }}',
+        'defend': f'def 0 {inner} end_def',
+    }[how]
+
+
+def _wrap_ref(how, inner: bytes) -> bytes:
+    T = isa.op('TRUE')
+    return {
+        'top': inner,
+        'if': T + isa.IF(inner), 'ifhoist': T + isa.IF(inner),
+        'ifend': T + isa.IF(inner),
+        'else': T + isa.IF_ELSE(T, inner),
+        'try': isa.TRY(inner, T), 'except': isa.TRY(T, inner),
+        'loop': T + isa.LOOP(inner),
+        'def': isa.DEF(0, inner), 'defend': isa.DEF(0, inner),
+    }[how]
+
+
+def unencodable(rng):
+    """-> (class, instruction text, alternative encoding or None). A written
+    instruction the documented formats have no encoding for: an operand
+    outside the width of its field, a value longer than its size field can
+    count, a block longer than its 16-bit length, an instruction cut off by
+    the end of the source, a name that is not an instruction. `alternative`
+    is the one encoding that would not be a mis-assembly if the compiler
+    chose to accept the spelling (a decimal 128..255 or -128..-1 for a
+    one-byte field read as that byte)."""
+    r = render.Renderer(rng, render.WILD)
+    k = rng.choice(('u8-d', 'u8-d', 'u8-d', 'u8-x', 'nop-d', 'multi-d',
+                    'multi-x', 'count-d', 'handle', 'lv1-long', 'key-long',
+                    'f4-width', 'h32-width', 'cut-off', 'unknown-name',
+                    'unterminated', 'stray-terminator', 'push-long',
+                    'block-long'))
+    wide_x = rng.choice(('x0100', 'x0180', 'xffff', 'x010000', 'x7f00',
+                         'xff00ff'))
+    if k in ('u8-d', 'nop-d'):
+        name = rng.choice(U8_OPS) if k == 'u8-d' else \
+            f'NOP{rng.choice(list(isa.NOP_CODES))}'
+        code = isa.CODE[name] if k == 'u8-d' else int(name[3:])
+        v = rng.choice((128, 128, 129, 130, 200, 254, 255, 256, 257, 300,
+                        1000, 32768, 65536, -129, -130, -200, -255, -256,
+                        -257, -1000, 2**31, -2**31))
+        sp = rng.choice(('d{}', 'd{}', 'D{}', 'd+{}') if v > 0
+                        else ('d{}', 'D{}')).format(v)
+        alt = bytes([code, v & 255]) if -128 <= v <= 255 else None
+        return k, f'{r.name(name) if k == "u8-d" else r.case(name)} {sp}', alt
+    if k == 'u8-x':
+        return k, f'{r.name(rng.choice(U8_OPS))} {wide_x}', None
+    if k in ('multi-d', 'multi-x'):
+        name = rng.choice(('OP_SWAP', 'OP_CHECK_MULTISIG',
+                           'OP_CHECK_MULTISIG_VERIFY'))
+        n = 2 if name == 'OP_SWAP' else 3
+        ops = [f'd{rng.randrange(0, 4)}' for _ in range(n)]
+        ops[rng.randrange(n)] = wide_x if k == 'multi-x' else \
+            f'd{rng.choice((256, 257, 300, 1000, 65536))}'
+        return k, f'{r.name(name)} ' + ' '.join(ops), None
+    if k == 'count-d':
+        c = rng.choice(('d256', 'd257', 'd1000', 'x0100', 'xffff'))
+        return k, rng.choice((f'{r.name("OP_WRITE_CACHE")} x6b {c}',
+                              f'@= k {c[1:] if c[0] == "d" else c}')), None
+    if k == 'handle':
+        h = rng.choice(('d256', 'd300', 'x0100', '256', '1000', 'xffff'))
+        return k, f'{r.case("def")} {h} {{ true }}', None
+    if k == 'lv1-long':
+        v = 'x' + 'ab' * rng.choice((256, 257, 300, 1000))
+        nm = rng.choice(LV1_OPS + ['OP_PUSH1'])
+        return k, f'{r.name(nm)} {v}', None
+    if k == 'key-long':
+        v = 'x' + '6b' * rng.choice((256, 257, 400))
+        return k, f'{r.name("OP_WRITE_CACHE")} {v} d1', None
+    if k == 'f4-width':
+        v = 'x' + '3f' * rng.choice((1, 2, 3, 5, 8))
+        return k, f'{r.name(rng.choice(("OP_DIV_FLOAT", "OP_MOD_FLOAT")))} {v}', None
+    if k == 'h32-width':
+        v = 'x' + 'c4' * rng.choice((1, 20, 31, 33, 64))
+        return k, f'{r.name("OP_MERKLEVAL")} {v}', None
+    if k == 'push-long':
+        v = 'x' + '5a' * rng.choice((65536, 65537, 70000))
+        return k, f'{r.name(rng.choice(("OP_PUSH", "OP_PUSH2")))} {v}', None
+    if k == 'block-long':
+        # the body is one byte, or a few, longer than a 16-bit length counts
+        n = 65536 - 3 + rng.choice((0, 0, 1, 7))
+        return k, f'push x{"5a" * n}', None
+    if k == 'cut-off':
+        if rng.random() < 0.4:
+            # an instruction with several operands, the last ones missing
+            name = rng.choice(('OP_SWAP', 'OP_CHECK_MULTISIG',
+                               'OP_CHECK_MULTISIG_VERIFY', 'OP_WRITE_CACHE'))
+            n = {'OP_SWAP': 2, 'OP_WRITE_CACHE': 2}.get(name, 3)
+            ops = ['x6b' if name == 'OP_WRITE_CACHE' else
+                   f'd{rng.randrange(0, 4)}' for _ in range(rng.randrange(n))]
+            return k, ' '.join([r.name(name)] + ops), None
+        name = rng.choice(U8_OPS + LV1_OPS + ['OP_PUSH', 'OP_DIV_FLOAT',
+                                              'OP_MERKLEVAL', 'OP_CALL'])
+        return k, r.name(name), None
+    if k == 'unknown-name':
+        return k, rng.choice(('frobnicate', 'OP_FROB', 'op_dupp', 'pushh x01',
+                              'nop256 d1', 'nop91 d1', 'OP_NOP300 d1',
+                              'veriffy', 'end', 'OP_', 'x01', 'd5')), None
+    if k == 'unterminated':
+        return k, rng.choice(('true if { true', 'true if true',
+                              'def 0 { true', 'def 0 true',
+                              'true loop { true', 'true loop true',
+                              'try { true } except { false',
+                              'try { true', 'true if { true } else { false',
+                              'true if true else false',
+                              '!= m [ a ] { push a', '@= k [ x01',
+                              'push ~ { true', 'if ( true { true }')), None
+    return k, rng.choice(('}', 'end_if', 'end_def', 'end_loop', 'end_except',
+                          'else { true }', 'except { true }', ')', ']',
+                          'true if { true } }')), None
+
+
+def judge_unencodable(ctx, rng):
+    k, inner, alt = unencodable(rng)
+    how = 'top' if k in ('unterminated', 'stray-terminator', 'cut-off') \
+        else rng.choice(WRAPS)
+    if k == 'cut-off' and rng.random() < 0.3:
+        inner = 'push ~ { ' + inner + ' }'    # cut off by the end of a comptime block
+    if k == 'block-long' and how == 'top':
+        how = 'if'
+    pre = rng.choice(('', 'true', 'push x0102 dup', 'false not'))
+    post = '' if k in ('cut-off', 'unterminated') else \
+        rng.choice(('', 'false', 'dup pop0', 'push d5'))
+    src = ' '.join(x for x in (pre, _wrap(how, inner), post) if x)
+    return judge_unenc_source(ctx, src, k, how, pre, post, alt)
+
+
+def judge_unenc_source(ctx, src, k, how, pre, post, alt):
+    functions, parsing, tools, _, _ = env.mods()
+    ctx.evaluated()
+    ctx.count('unencodable_tried')
+    ctx.tab('unencodable_class', k)
+    ctx.tab('unencodable_wrap', how)
+    try:
+        if len(src) % 5 == 0:
+            got = tools.Script.from_src(src).bytes
+        else:
+            got = parsing.compile_script(src)
+    except BaseException as e:
+        ctx.tab('unencodable_reject_reason', type(e).__name__)
+        ctx.mark_nontrivial(dg(src[:300] + str(len(src))))
+        return
+    if alt is not None:
+        # the spelling has one reading that fits the field: accepting it is
+        # admissible exactly when that reading is what was assembled
+        want = parsing_ref(pre) + _wrap_ref(how, alt) + parsing_ref(post)
+        if got == want:
+            ctx.count('unencodable_accepted_with_fitting_reading')
+            return
+    import zlib
+    ctx.violation(f'accepted-unencodable:{k}',
+                  f'the compiler accepted a source holding an instruction the '
+                  f'documented encoding has no room for ({k}, inside {how}): '
+                  f'it assembled {len(got)} bytes instead of raising',
+                  {'kind': 'unenc', 'src_z': zlib.compress(src.encode()),
+                   'class': k, 'wrap': how, 'pre': pre, 'post': post,
+                   'alt': alt},
+                  'rejected', got.hex()[:200])
+
+
+_FIXED = {'': '', 'true': '01', 'push x0102 dup': '030201021d',
+          'false not': '002e', 'false': '00', 'dup pop0': '1d06',
+          'push d5': '0205'}
+
+
+def parsing_ref(txt: str) -> bytes:
+    return bytes.fromhex(_FIXED[txt])
+
+
 def run_shard(spec, ctx):
     i, of = spec['shard'], spec['of']
     tier = ctx.tier
@@ -352,6 +540,8 @@ def run_shard(spec, ctx):
             name, nargs = foreign[rng.randrange(len(foreign))]
             src2 = f'true !{name} [ ' + 'x01 ' * nargs + '] false'
             judge_undefined_macro(ctx, src2, name)
+        if j % 3 == 0:
+            judge_unencodable(ctx, rng)
         for m in mine:
             if m not in earlier_macros:
                 earlier_macros.append(m)
@@ -367,6 +557,10 @@ def finalize(agg, tier):
     accw, rejw = c.get('accepted.wild', 0), c.get('rejected.wild', 0)
     if accw + rejw == 0 or accw / (accw + rejw) < 0.3:
         out.append(f'wild-spelling acceptance {accw}/{accw + rejw} < 30%')
+    if c.get('unencodable_tried', 0) < 1000:
+        out.append('fewer than 1000 unencodable sources were tried')
+    if len(agg['tables'].get('unencodable_class', {})) < 17:
+        out.append('not every class of unencodable source was tried')
     if not c.get('undefined_macro_calls'):
         out.append('no call of a macro defined by an earlier source was tried')
     b = agg['tables'].get('battery', {})
@@ -385,5 +579,10 @@ def replay(case, ctx):
         except BaseException:
             pass
         return judge_undefined_macro(ctx, case['src'], case['name'])
+    if case.get('kind') == 'unenc':
+        import zlib
+        return judge_unenc_source(ctx, zlib.decompress(case['src_z']).decode(),
+                                  case['class'], case['wrap'], case['pre'],
+                                  case['post'], case['alt'])
     judge_source(ctx, case['src'], case['ref'], set(case.get('features', [])),
                  None, 'replay', case.get('collapsed_ref'))
